@@ -5,6 +5,9 @@ Line-protocol driver for the C13 models (calendar, interval calculators, query p
   all <c> <t>                       -> <segName> <seg> <family> <start> <end> <familyTime>
   zall <zone> <c> <t>               -> the same with time.Local = <zone>: an offset in seconds east of UTC
                                        (fixed-offset zone) or `ny2024` (America/New_York around 2024-11-03)
+  zallt <c> <t> | off0 at1 off1 at2 off2 ...
+                                    -> the same with time.Local = the zone with initial offset off0 (s) and
+                                       transitions (UTC second, new offset): daylight-saving zones
   seg <c> <t>                       -> CalcSegmentTime
   fam <c> <t> <segTime>             -> CalcFamily
   fstart <c> <segTime> <family>     -> CalcFamilyStartTime
@@ -91,6 +94,19 @@ def step (st : Unit) (ws : List String) : Unit × String :=
         let start := calcFamilyStartTimeZ z c seg fam
         s!"{segmentNameZ z c t} {seg} {fam} {start} {calcFamilyEndTimeZ z c start} {calcFamilyTimeZ z c t}"
       | _, _, _ => "bad-op"
+    | "zallt" :: c :: t :: "|" :: off0 :: trs =>
+      let rec pairs : List Int → Option (List (Int × Int))
+        | [] => some []
+        | a :: o :: r => (pairs r).map ((a, o) :: ·)
+        | [_] => none
+      match parseCalc c, t.toInt?, off0.toInt?, (ints trs).bind pairs with
+      | some c, some t, some off0, some trs =>
+        let z := Zone.ofTransitions off0 trs
+        let seg := calcSegmentTimeZ z c t
+        let fam := calcFamilyZ z c t seg
+        let start := calcFamilyStartTimeZ z c seg fam
+        s!"{segmentNameZ z c t} {seg} {fam} {start} {calcFamilyEndTimeZ z c start} {calcFamilyTimeZ z c t}"
+      | _, _, _, _ => "bad-op"
     | ["seg", c, t] =>
       match parseCalc c, t.toInt? with
       | some c, some t => toString (calcSegmentTime c t)
